@@ -120,10 +120,20 @@ class _Alpha(ast.NodeTransformer):
                     # named by nesting depth and position, so equal sub-expressions get equal texts wherever they occur
                     fr[t.id] = f"_c{len(self.env)}{'abcdefgh'[len(fr) % 8]}"
             gens.append(ast.comprehension(target=self.visit(g.target), iter=it, ifs=[self.visit(i) for i in g.ifs], is_async=g.is_async))
+            gens[-1]._bound = {fr[t.id] for t in ast.walk(g.target) if isinstance(t, ast.Name) and t.id in fr}
         if isinstance(node, ast.DictComp):
             new = ast.DictComp(key=self.visit(node.key), value=self.visit(node.value), generators=gens)
         else:
             new = type(node)(elt=self.visit(node.elt), generators=gens)
+        # a target none of whose names is used (the usual case after expansion, where uses became __elem__ terms) is
+        # written `_`: `for t in xs`, `for i, t in xs`, `for _, t, _ in xs` then read the same
+        body_parts = ([new.key, new.value] if isinstance(new, ast.DictComp) else [new.elt])
+        for gi, g in enumerate(gens):
+            used = set()
+            for part in body_parts + [x for g2 in gens for x in g2.ifs] + [g2.iter for g2 in gens[gi + 1:]]:
+                used |= {n.id for n in ast.walk(part) if isinstance(n, ast.Name)}
+            if not (getattr(g, "_bound", set()) & used):
+                g.target = ast.Name(id="_", ctx=ast.Store())
         self.env.pop()
         return ast.copy_location(new, node)
     visit_ListComp = visit_SetComp = visit_GeneratorExp = visit_DictComp = _comp
